@@ -576,8 +576,21 @@ def canon_pad_count(H, pw, L):
         return "?"
     if isinstance(pw, Lin):
         return ren(repr(pw))
+    def resolve(t, pol):
+        """a guard that is a local flag defined once as `flag = not <attr>` / `flag = <attr>` reads as that attribute"""
+        if t.isidentifier():
+            vals = [n.value for f_ in H.ctx.prog.functions.values() if f_.module is H.cls.module for n in own_nodes(f_.node)
+                    if isinstance(n, ast.Assign) and len(n.targets) == 1 and isinstance(n.targets[0], ast.Name) and n.targets[0].id == t]
+            if vals and len({ast.dump(v_) for v_ in vals}) == 1:
+                v_ = vals[0]
+                if isinstance(v_, ast.UnaryOp) and isinstance(v_.op, ast.Not) and isinstance(v_.operand, ast.Attribute):
+                    return norm(v_.operand), not pol
+                if isinstance(v_, ast.Attribute):
+                    return norm(v_), pol
+        return t, pol
     alts = []
     for g, v in pw:
+        g = [resolve(t, pol) for t, pol in g]
         gs = " & ".join(("" if pol else "not ") + t for t, pol in g)
         if H.LH:
             gs = gs.replace("self." + H.LH, "layer_hashes")
